@@ -71,6 +71,10 @@ def run(ctx, R):
         if cfg == "default":
             sc = scopes.decoder_scope(F)
             panicbudget.check(F, R, "C18:panic-budget", "c18_decoder", sc, 15)
+            # ---- "each invalid sequence reported as an error at the same position": reported once, then skipped,
+            # so that the characters after it are delivered (rule shared with C17)
+            from . import c17
+            c17.consuming_reads(F, R, "C18")
             # ---- RF3: ranges with a constant bound ------------------------------------------------------
             n_rng = 0
             for p in sc:
